@@ -66,6 +66,10 @@ def one_config(spec, sl, kind):
 
     o = R.build(spec, None, plain=kind)
     opts = {"random_seed": spec["seed"], "hibernation": spec["hibernation"]}
+    if spec.get("unseeded"):
+        opts = {"hibernation": spec["hibernation"]}
+        np.random.seed(spec["seed"] % (2**32))
+        random.seed(spec["seed"])
     tree = T.DemeTree(TreeConfig(o["levels"], o["gsc"], o["sm"], options=opts, config_class_to_deme_class=o["custom"]))
     mx = spec["maximize"]
     fd, fn = tempfile.mkstemp(suffix=".pkl")
@@ -163,12 +167,27 @@ def one_config(spec, sl, kind):
 def batch(ctx, n, salt, sl):
     rng = ctx.rng(salt)
     for i in range(n):
-        spec = R.rand_spec(rng, max_steps=int(rng.integers(3, 8)))
+        if i % 4 == 3:
+            # a tree built WITHOUT options.random_seed (the global generators are seeded here instead): engines
+            # that own a sampler / strategy object must carry its state through the snapshot, not a handle to a
+            # process-wide generator
+            nlev = int(rng.choice([1, 2, 2, 3]))
+            eng = {0: ["lhs", "lhs", "sobol", "sea", "de", "shade"], 1: ["sea", "de", "shade", "local", "mwea"], 2: ["sea", "de", "local"]}
+            spec = R.rand_spec(rng, nlev=nlev, engines=eng, max_steps=int(rng.integers(3, 8)))
+            spec["unseeded"] = True
+        else:
+            spec = R.rand_spec(rng, max_steps=int(rng.integers(3, 8)))
         if spec["gsc"]["kind"] == "User":
             spec["gsc"]["look"] = False
         kind = "lambda" if i % 2 else "callable"
+        from ..common import RunTimeout, run_limit
+
         try:
-            one_config(spec, sl, kind)
+            with run_limit(300):
+                one_config(spec, sl, kind)
+        except RunTimeout as e:
+            sl.violations.append({"signature": "C19/run-did-not-terminate", "detail": str(e), "replay": {"spec": spec}})
+            continue
         except Exception as e:
             import traceback
 
